@@ -198,6 +198,9 @@ type genOpts struct {
 	// strict: keep the document acceptable to strict validation (PDF 1.4 so that the standard
 	// fonts need no FirstChar/Widths, dates with an explicit UT offset)
 	strict bool
+	// version matrix: header = "1.0" .. "1.7" fixes the header version; rootVer = "-" no catalog
+	// /Version, otherwise its value ("1.0" .. "1.7", "2.0"); both empty: random as before
+	header, rootVer string
 }
 
 func randValue(r *rand.Rand, b *pdfb, depth int) string {
@@ -602,7 +605,12 @@ func genDoc(r *rand.Rand, opt genOpts) ([]byte, *docInfo) {
 
 	// catalog
 	cat := fmt.Sprintf("<< /Type /Catalog /Pages %d 0 R", pagesRoot)
-	if r.Intn(4) == 0 {
+	if opt.rootVer != "" {
+		if opt.rootVer != "-" {
+			cat += " /Version /" + opt.rootVer
+		}
+		di.note("root-version=" + opt.rootVer)
+	} else if r.Intn(4) == 0 {
 		cat += " /Version /" + pick(r, "1.5", "1.6", "1.7")
 		di.note("root-version")
 	}
@@ -743,6 +751,16 @@ func genDoc(r *rand.Rand, opt genOpts) ([]byte, *docInfo) {
 	for i := r.Intn(3); i > 0; i-- {
 		b.add(randValue(r, b, 1))
 		di.note("unreferenced")
+	}
+	if opt.header != "" {
+		b.ver = opt.header
+		di.note("header=" + opt.header)
+		// entries newer than the oldest versions are left out so that low versions stay valid
+		for n, body := range b.objs {
+			body = strings.ReplaceAll(body, " /UserUnit 2.0", "")
+			body = strings.ReplaceAll(body, " /Tabs /S", "")
+			b.objs[n] = body
+		}
 	}
 	if opt.strict {
 		b.ver = "1.4"
